@@ -6,10 +6,11 @@
    panics / loops / hits UB, and the contents afterwards are the abstract map's.
    The remaining theorems are the property's sentences, stated on the abstract map the
    implementation is proved equal to.
-   OBLIGATIONS: C01_history_agrees_with_reference_map C01_no_call_panics C01_step_agrees C01_insert_returns_previous_keeps_first_key C01_remove_returns_stored_leaves_rest C01_get_mut_changes_only_that_key C01_len_counts_distinct_keys C01_arena_level_mutators_simulate C01_nonvacuous C01_reachable_states_good C01_reachable_states_have_room C01_arena_level_on_reachable C01_contents_agree_all_ops C01_remove_keeps_other_entries C01_insert_keeps_other_entries C01_get_mut_finds_what_get_finds *)
+   OBLIGATIONS: C01_history_agrees_with_reference_map C01_no_call_panics C01_step_agrees C01_insert_returns_previous_keeps_first_key C01_remove_returns_stored_leaves_rest C01_get_mut_changes_only_that_key C01_len_counts_distinct_keys C01_arena_level_mutators_simulate C01_nonvacuous C01_reachable_states_good C01_reachable_states_have_room C01_arena_level_on_reachable C01_contents_agree_all_ops C01_remove_keeps_other_entries C01_insert_keeps_other_entries C01_get_mut_finds_what_get_finds C01_history_of_any_length C01_call_count_bound_implies_state_bound C01_any_number_of_reads C01_beyond_the_call_count_bound *)
 From BPT Require Import Common.Base Common.AMap Rust.Arena Rust.Tree Rust.Heap Rust.Readers Rust.Run
      Rust.InvDefs Rust.Repr Rust.Spec Rust.ReachDefs Rust.Lib Rust.TreeFactsI Rust.Reach Rust.ReadersGet Rust.HeapOps Rust.HeapOpsSim Props.Reachable.
 From BPT Require Extra.RustExtra2.
+From BPT Require Import Extra.AnyLength.
 From BPT Require Extra.RustExtra.
 
 Theorem C01_history_agrees_with_reference_map :
@@ -153,3 +154,40 @@ Theorem C01_get_mut_finds_what_get_finds : forall (V:Type) n (b:bstate V) z v, G
     h_get (flatten b) z = Ok (if ok then m_get (contents (root b)) z else None) /\
     (ok = false -> b' = b).
 Proof. exact RustExtra2.get_mut_finds_what_get_finds. Qed.
+
+(* Histories of ANY length.  The theorems above are stated under fits (ops_weight ops), which
+   counts every call (about 2.1e9 calls).  The same conclusions hold under a bound on the SIZE
+   OF THE STATES instead ([run_small]: before each call, entries and arena slots + the weight of
+   that call stay below about 2^31), whatever the number of calls; the old hypothesis implies the
+   new one, read-only calls never grow the state, and 2^32 get calls are outside the old bound
+   and inside the new one. *)
+Section AnyLength.
+Variable V : Type.
+
+Theorem C01_history_of_any_length : forall c (b0 : bstate V) ops,
+  b_new V c = Some b0 -> run_small b0 ops ->
+  let b := fst (run b0 ops) in
+  Inv b /\ rooms b /\ heap_of b (flatten b) /\ cap b = c /\
+  (forall x, In x (snd (run b0 ops)) -> out_is_error x = false) /\
+  (forallb (@abstract_op V) ops = true ->
+     snd (run b0 ops) = snd (spec_run [] ops) /\ contents (root b) = fst (spec_run [] ops)).
+Proof. exact (@AnyLength.run_any_length V). Qed.
+
+Theorem C01_call_count_bound_implies_state_bound : forall c (b0 : bstate V) ops,
+  4 <= c -> b_new V c = Some b0 -> fits (ops_weight ops) -> run_small b0 ops.
+Proof. exact (@AnyLength.fits_implies_run_small V). Qed.
+
+Theorem C01_any_number_of_reads : forall c (b0 : bstate V) ops reads,
+  b_new V c = Some b0 -> run_small b0 ops -> forallb (@is_reader V) reads = true ->
+  (forall o, In o reads -> step_small (fst (run b0 ops)) o) -> run_small b0 (ops ++ reads).
+Proof. exact (@AnyLength.any_number_of_reads V). Qed.
+
+Theorem C01_beyond_the_call_count_bound : forall c (b0 : bstate V) z, b_new V c = Some b0 ->
+  let ops := repeat (@OGet V z) (N.to_nat 4294967296) in
+  ~ fits (ops_weight ops) /\ run_small b0 ops /\ Inv (fst (run b0 ops)) /\
+  (forall x, In x (snd (run b0 ops)) -> out_is_error x = false) /\
+  snd (run b0 ops) = snd (spec_run [] ops) /\
+  length (snd (run b0 ops)) = N.to_nat 4294967296.
+Proof. exact (@AnyLength.beyond_old_bound V). Qed.
+
+End AnyLength.
